@@ -247,6 +247,73 @@ def run(chk, prog):
                                'expression stay unresolved' % (prog.root_fn(fn).short, cs), fn.loc(bb))
         chk.floor(RX, 'calls passing an optional emit context', n_ctx, 20)
 
+    # ---------------- divert targets resolved by the emitter
+    RT = 'C06.divert-targets-resolved'
+    chk.rule(RT, 'EmitScope::resolve_divert_target (a) consults every flow-name table that EmitScope::child_flow builds for it '
+             '(fields initialised from the nested flows\' names, or from another such table), and (b) returns the bare source '
+             'name only after some lookup succeeded (END/DONE, already qualified, a divert variable): a bare name returned '
+             'after every lookup failed is emitted as a path that resolves to nothing.')
+    rdt = prog.fn('EmitScope::resolve_divert_target')
+    cfl = prog.fn('EmitScope::child_flow')
+    if chk.anchor(RT, 'EmitScope::resolve_divert_target', rdt) and chk.anchor(RT, 'EmitScope::child_flow', cfl):
+        lt = Tracer(prog, transparent=lambda cs: True, use_summaries=False)
+        inits = {}
+        for g_ in prog.with_closures(cfl):
+            for bb, si, st in g_.stmts():
+                if st['k'] == 'assign' and st['rv']['k'] == 'agg' and tyname(st['rv'].get('adt', '')) == 'EmitScope':
+                    for n_, o_ in zip(st['rv']['fields'], st['rv']['ops']):
+                        inits[n_] = lt.prov(g_, o_)
+        scope_adt = prog.adt('EmitScope')
+        coll = {f['n'] for v in scope_adt['variants'] for f in v['fields'] if 'BTreeSet' in f['ty'] or 'BTreeMap' in f['ty']
+                or 'HashSet' in f['ty'] or 'HashMap' in f['ty']} if scope_adt else set()
+        tables = {n_ for n_, at in inits.items() if n_ in coll and 'field:Flow::children' in at}
+        changed = True
+        while changed:
+            changed = False
+            for n_, at in inits.items():
+                if n_ in coll and n_ not in tables and any(('field:EmitScope::' + t_) in at for t_ in tables):
+                    tables.add(n_)
+                    changed = True
+        chk.floor(RT, 'flow-name tables built by EmitScope::child_flow', len(tables), 2)
+        consulted = fields_read(prog, [rdt], 'EmitScope', depth=2)
+        for t_ in sorted(tables):
+            chk.decide(RT, chk.key(RT, 'table-consulted', t_), t_ in consulted, 'looked up by resolve_divert_target',
+                       'resolve_divert_target never looks a target up in EmitScope::%s although child_flow fills it with flow '
+                       'names: a bare reference to such a flow is emitted unresolved when the global short-name table has '
+                       'no (unique) entry for it' % t_, rdt.loc(0))
+
+        def atom_rt(desc):
+            if desc[0] == 'call' and desc[1].rsplit('::', 1)[-1] in ('contains', 'contains_key'):
+                fs = sorted(a for a in desc[2] if a.startswith('field:Emit'))
+                return 'in:' + (fs[0].split('::')[-1] if fs else 'text')
+            if desc[0] == 'is_some':
+                fs = sorted(a for a in desc[1] if a.startswith(('field:Emit', 'call:', 'via:EmitScope')))
+                return 'some:' + ','.join(x.split('::')[-1] for x in fs)
+            if desc[0] == 'call':
+                return 'call:' + desc[1]
+            return None
+        gfr = GuardFlow(prog, rdt, atom_rt, tracer=tr)
+        gfr.run()
+        atoms_r = sorted({gfr.atom_for_cond(gfr.cond_at(b)) for b in range(len(rdt.blocks))} - {None})
+        lookups = [a for a in atoms_r if a.startswith(('in:', 'some:', 'call:'))]
+        raw, bad = 0, []
+        for bb, t in rdt.calls():
+            if t['dest']['l'] == 0 and t['args']:
+                pv = tr.prov(rdt, t['args'][0])
+                if any(a.startswith('arg:') for a in pv) and not any(a.startswith(('field:', 'call:')) for a in pv):
+                    raw += 1
+                    for v in gfr.valuations_at(bb, atoms_r):
+                        if lookups and all(v.get(a) in (False, None) for a in lookups) and any(
+                                v.get(a) is False for a in lookups) and not any(v.get(a) for a in lookups):
+                            bad.append(bb)
+                            break
+        if chk.anchor(RT, 'returns of the bare target in resolve_divert_target', raw):
+            chk.decide(RT, chk.key(RT, 'EmitScope::resolve_divert_target', 'raw-name-fallback'), not bad,
+                       'the bare name is returned only after a successful lookup',
+                       'resolve_divert_target returns the bare source name after every lookup failed (%d lookups): a target '
+                       'the validator accepted by its ".name" suffix rule but that is neither in scope nor unique is '
+                       'emitted as a path that resolves to nothing' % len(lookups), rdt.loc(bad[0]) if bad else None)
+
     # ---------------- reject unknown
     for name, what in (('ValidationContext::check_target', 'divert target'),
                        ('ValidationContext::check_function_call_target', 'called function')):
